@@ -1015,7 +1015,7 @@ func roots0(roots []*rj.Node, op editOp, wantErr bool) []*rj.Node { return roots
 
 // genHistory draws a document and an operation list by simulating the model.
 func genHistory(t *rapid.T, mix opMix, maxOps int, profiles []docProfile) historyCase {
-	c := historyCase{ND: rapid.IntRange(0, 3).Draw(t, "nd") == 0, Copy: rapid.Bool().Draw(t, "copy"), ViaBlob: rapid.IntRange(0, 4).Draw(t, "viablob") == 0}
+	c := historyCase{ND: rapid.IntRange(0, 3).Draw(t, "nd") == 0, Copy: rapid.Bool().Draw(t, "copy"), ViaBlob: rapid.IntRange(0, 2).Draw(t, "viablob") == 0}
 	p := profiles[rapid.IntRange(0, len(profiles)-1).Draw(t, "profile")]
 	if c.ND {
 		n := rapid.IntRange(1, 3).Draw(t, "lines")
